@@ -2,7 +2,7 @@
    profit, symmetry, slippage.  Property theorems only; proofs are in Proofs/Swap.v.
    All statements are over unbounded Z; a pool is well-formed ([wf]) when both
    reserves and the total shares are >= 1; the fee mantissa is in [0, 10^18). *)
-From Kava Require Import Base.Prelude Base.Dec Model.Swap Proofs.Swap.
+From Kava Require Import Base.Prelude Base.Dec Model.Swap Model.SwapGov Proofs.Swap Proofs.SwapGov.
 Local Open Scope Z_scope.
 
 (** * Swaps: the product of the reserves never decreases, the fee stays in the pool *)
@@ -435,3 +435,107 @@ Example C07_deadline_nonvacuous :
   class_of (tx_step e 1000 s (mkMsg (Deposit 0 2 0 0 100000 0) 1001)) = RErr /\
   class_of (step e s (Deposit 0 2 0 0 100000 0)) = RPanic.
 Proof. cbv zeta. repeat split; vm_compute; reflexivity. Qed.
+
+(** * The swap fee is a parameter that governance changes in the middle of a history
+
+    Reading guide (Model/SwapGov.v).  [vstate] = the current fee (params subspace "swap", key SwapFee)
+    next to the keeper state; [VSetFee f] is a parameter-change proposal for that key (x/params
+    proposal handler -> Subspace.Update -> validateSwapFee), [VKeeper o] / [VTx t m] run the step of
+    Model/Swap.v under the environment whose fee is the CURRENT one ([cur_env]).  A history is a
+    sequence of segments of constant fee. *)
+
+(* Between two fee changes a history is a history of Model/Swap.v under the current fee: every
+   theorem above about [run] / [tx_run] speaks about each segment, and histories compose. *)
+Theorem C07_fee_segments :
+  forall e s,
+  (forall ops, vrun e s (map VKeeper ops) = mkV (v_fee s) (run (cur_env e s) (v_k s) ops)) /\
+  (forall l, vrun e s (map (fun tm => VTx (fst tm) (snd tm)) l) = mkV (v_fee s) (tx_run (cur_env e s) (v_k s) l)) /\
+  (forall a b, vrun e s (a ++ b) = vrun e (vrun e s a) b).
+Proof.
+  intros e s. split; [|split].
+  - intros ops. apply vrun_keeper_segment.
+  - intros l. apply vrun_tx_segment.
+  - intros a b. apply vrun_app.
+Qed.
+Print Assumptions C07_fee_segments.
+
+(* A fee change is accepted exactly for mantissas in [0, 10^18), touches nothing but the fee, and
+   the very next operation runs under the new fee; a refused one changes nothing. *)
+Theorem C07_fee_change :
+  forall e s f,
+  (fee_ok f = true -> vstep e s (VSetFee f) = Ok (mkV f (v_k s)) [] /\
+                      forall g, vstep e (vstep' e s (VSetFee f)) g = vstep (with_fee e f) (mkV f (v_k s)) g) /\
+  (fee_ok f = false -> vstep e s (VSetFee f) = Err /\ vstep' e s (VSetFee f) = s).
+Proof.
+  intros e s f. split.
+  - intros H. split; [now apply setfee_valid|]. intros g. now apply step_after_setfee.
+  - apply setfee_invalid.
+Qed.
+Print Assumptions C07_fee_change.
+
+(* A swap keeps the fee at the rate configured WHEN IT EXECUTES (whatever the fee was at genesis or
+   at the first swap): exact-input keeps exactly ceil(input * current fee), exact-output at least
+   that, and the product of the reserves does not decrease even with the fee left out. *)
+Theorem C07_swap_in_keeps_current_fee :
+  forall e s who din ain dout bdes sl s' outs,
+  Inv e (v_k s) ->
+  vstep e s (VKeeper (SwapIn who din ain dout bdes sl)) = Ok s' outs ->
+  let x := lo din dout in let y := hi din dout in
+  exists p p' out fv,
+    outs = [ain; out; fv] /\ v_fee s' = v_fee s /\ k_pool (v_k s) x y = Some p /\ wf p /\ wf p' /\
+    (if Nat.eqb din x then swap_exact_a_for_b p ain (v_fee s) else swap_exact_b_for_a p ain (v_fee s))
+      = POk (p', (out, fv)) /\
+    ain * v_fee s <= fv * PREC < ain * v_fee s + PREC /\
+    (if Nat.eqb din x then (ra p + ain - fv) * (rb p - out) else (ra p - out) * (rb p + ain - fv)) >= ra p * rb p.
+Proof. exact v_swap_in_keeps_current_fee. Qed.
+Print Assumptions C07_swap_in_keeps_current_fee.
+
+Theorem C07_swap_out_keeps_current_fee :
+  forall e s who din amax dout bex sl s' outs,
+  Inv e (v_k s) ->
+  vstep e s (VKeeper (SwapOut who din amax dout bex sl)) = Ok s' outs ->
+  let x := lo din dout in let y := hi din dout in
+  exists p p' inn fv,
+    outs = [inn; bex; fv] /\ v_fee s' = v_fee s /\ k_pool (v_k s) x y = Some p /\ wf p /\ wf p' /\
+    (if Nat.eqb din x then swap_a_for_exact_b p bex (v_fee s) else swap_b_for_exact_a p bex (v_fee s))
+      = POk (p', (inn, fv)) /\
+    inn * v_fee s <= fv * PREC /\
+    (if Nat.eqb din x then (ra p + inn - fv) * (rb p - bex) else (ra p - bex) * (rb p + inn - fv)) >= ra p * rb p.
+Proof. exact v_swap_out_keeps_current_fee. Qed.
+Print Assumptions C07_swap_out_keeps_current_fee.
+
+(* The keeper invariant holds and the fee stays in [0, 10^18) after every history of keeper calls,
+   transactions and fee changes; a refused operation changes nothing. *)
+Theorem C07_invariant_all_histories_with_fee_changes :
+  forall e gs s, Inv e (v_k s) -> fee_ok (v_fee s) = true ->
+  Inv e (v_k (vrun e s gs)) /\ fee_ok (v_fee (vrun e s gs)) = true.
+Proof. intros e gs s I F. split; [now apply vrun_inv|now apply vrun_fee_ok]. Qed.
+Print Assumptions C07_invariant_all_histories_with_fee_changes.
+
+Theorem C07_failed_changes_nothing_with_fee :
+  forall e s g, (forall s' u, vstep e s g <> Ok s' u) -> vstep' e s g = s.
+Proof. exact vstep_failed_changes_nothing. Qed.
+Print Assumptions C07_failed_changes_nothing_with_fee.
+
+(* Why the fee must be read when the swap executes: a keeper that memoised it at its first swap
+   ([mstep_memo], not the model of /repo) shows the new fee in its parameters but pays the trader
+   more than the model of the code after governance raised the fee from 0.3 % to 5 %. *)
+Theorem C07_memoised_fee_underprices :
+  v_fee (vrun sg_env sg_init sg_hist) = 50000000000000000 /\
+  v_fee (m_v (mrun_memo sg_env (mkM None sg_init) sg_hist)) = 50000000000000000 /\
+  sg_received (v_k (vrun sg_env sg_init sg_hist)) < sg_received (v_k (m_v (mrun_memo sg_env (mkM None sg_init) sg_hist))).
+Proof. exact memoised_fee_underprices. Qed.
+Print Assumptions C07_memoised_fee_underprices.
+
+(* non-vacuity: the history above succeeds step by step under the model of the code, the second swap
+   keeping 5 % of its input *)
+Example C07_fee_change_nonvacuous :
+  Inv sg_env (v_k sg_init) /\
+  match vstep sg_env (vrun sg_env sg_init (firstn 3 sg_hist)) (VKeeper (SwapIn 0%nat 0%nat 100000000 2%nat 1 PREC)) with
+  | Ok _ [a; _; fv] => a = 100000000 /\ fv = 5000000
+  | _ => False
+  end.
+Proof.
+  split; [apply inv_init; intros d Hd; destruct d as [|[|[|d]]]; try reflexivity; cbn in Hd; lia|].
+  vm_compute. split; reflexivity.
+Qed.
